@@ -188,7 +188,39 @@ func progressHonestFindings(fns []*ssa.Function) (checked int, out []progressFin
 				}
 			}
 		}
-		if len(ops) == 0 {
+		// a same-package helper that returns true only after a hand-off counts as a
+		// hand-off on the branch where its result was true
+		var helperStarts []*ssa.BasicBlock
+		var helperCalls []ssa.Instruction
+		for _, b := range fn.Blocks {
+			ifi, isIf := b.Instrs[len(b.Instrs)-1].(*ssa.If)
+			if !isIf {
+				continue
+			}
+			cond, neg := ifi.Cond, false
+			for {
+				if u, isU := cond.(*ssa.UnOp); isU && u.Op == token.NOT {
+					cond, neg = u.X, !neg
+					continue
+				}
+				break
+			}
+			call, isCall := cond.(*ssa.Call)
+			if !isCall {
+				continue
+			}
+			sc := call.Common().StaticCallee()
+			if sc == nil || sc.Pkg != fn.Pkg || sc == fn || !handsOffWhenTrue(sc) {
+				continue
+			}
+			succ := b.Succs[0]
+			if neg {
+				succ = b.Succs[1]
+			}
+			helperStarts = append(helperStarts, succ)
+			helperCalls = append(helperCalls, call)
+		}
+		if len(ops) == 0 && len(helperStarts) == 0 {
 			continue
 		}
 		checked++
@@ -213,15 +245,93 @@ func progressHonestFindings(fns []*ssa.Function) (checked int, out []progressFin
 			if afterPanic {
 				continue // unreachable return after log.Panic*
 			}
+			found := false
 			for _, op := range ops {
 				if Reaches(op, ret) {
 					out = append(out, progressFinding{fn, op, ret})
+					found = true
+					break
+				}
+			}
+			if found {
+				continue
+			}
+			for i, start := range helperStarts {
+				if start == b || blockReaches(start, b) {
+					out = append(out, progressFinding{fn, helperCalls[i], ret})
 					break
 				}
 			}
 		}
 	}
 	return
+}
+
+func blockReaches(from, to *ssa.BasicBlock) bool {
+	seen := map[*ssa.BasicBlock]bool{from: true}
+	work := []*ssa.BasicBlock{from}
+	for len(work) > 0 {
+		x := work[len(work)-1]
+		work = work[:len(work)-1]
+		for _, s := range x.Succs {
+			if s == to {
+				return true
+			}
+			if !seen[s] {
+				seen[s] = true
+				work = append(work, s)
+			}
+		}
+	}
+	return false
+}
+
+// handsOffWhenTrue: h has a single bool result, performs a port hand-off, and
+// cannot return true without having performed one.
+func handsOffWhenTrue(h *ssa.Function) bool {
+	res := h.Signature.Results()
+	if res.Len() != 1 || len(h.Blocks) == 0 {
+		return false
+	}
+	if b, ok := res.At(0).Type().Underlying().(*types.Basic); !ok || b.Kind() != types.Bool {
+		return false
+	}
+	cut := map[*ssa.BasicBlock]bool{}
+	for _, b := range h.Blocks {
+		for _, in := range b.Instrs {
+			if call, ok := in.(ssa.CallInstruction); ok {
+				n, pk := calleeNamePkg(call)
+				if strings.HasSuffix(pk, "/messaging") && (n == "Send" || n == "Deliver") {
+					cut[b] = true
+				}
+			}
+		}
+	}
+	if len(cut) == 0 {
+		return false
+	}
+	// can a "return true" be reached from the entry without crossing a hand-off block?
+	seen := map[*ssa.BasicBlock]bool{}
+	var walk func(b *ssa.BasicBlock) bool
+	walk = func(b *ssa.BasicBlock) bool {
+		if seen[b] || cut[b] {
+			return false
+		}
+		seen[b] = true
+		if ret, ok := b.Instrs[len(b.Instrs)-1].(*ssa.Return); ok {
+			if cst, isC := ret.Results[0].(*ssa.Const); !isC || cst.Value == nil || cst.Value.String() != "false" {
+				return true // returns true (or a computed value) without a hand-off
+			}
+			return false
+		}
+		for _, s := range b.Succs {
+			if walk(s) {
+				return true
+			}
+		}
+		return false
+	}
+	return !walk(h.Blocks[0])
 }
 
 func progressHonestRule(c *Ctx, rule string, pred func(string) bool, floor int) {
@@ -285,6 +395,9 @@ func lifecycleBeforeStallRule(c *Ctx, rule string, floor int) {
 					if !isCall || !InstrDominates(in, ifi) {
 						continue
 					}
+					if v, isV := in.(ssa.Value); isV && condCall(ifi) == v {
+						continue // the helper whose result is being tested: what it does happens on its own successful path
+					}
 					if yes, what := mayTouchLifecycle(call, 2); yes {
 						bad = what + " at " + p.Rel(in.Pos())
 					}
@@ -330,11 +443,15 @@ func isStallGuard(ifi *ssa.If) bool {
 	name, pkg := calleeNamePkg(call)
 	switch name {
 	case "CanSend", "CanPush", "CanAccept", "CanDeliver":
+		if !strings.HasSuffix(pkg, "/messaging") && !strings.HasSuffix(pkg, "/queueing") {
+			return false
+		}
 	default:
-		return false
-	}
-	if !strings.HasSuffix(pkg, "/messaging") && !strings.HasSuffix(pkg, "/queueing") {
-		return false
+		// a same-package helper whose own false result comes from such a test
+		sc := call.Common().StaticCallee()
+		if sc == nil || sc.Pkg != b.Parent().Pkg || sc == b.Parent() || !stallsWhenBusy(sc) {
+			return false
+		}
 	}
 	stall := b.Succs[1]
 	if neg {
@@ -349,4 +466,44 @@ func isStallGuard(ifi *ssa.If) bool {
 		return isC && cst.Value != nil && cst.Value.String() == "false"
 	}
 	return len(ret.Results) == 0
+}
+
+// stallsWhenBusy: h is a bool function that contains a direct stall guard
+// ("cannot send/push: return false").
+func stallsWhenBusy(h *ssa.Function) bool {
+	res := h.Signature.Results()
+	if res.Len() != 1 || len(h.Blocks) == 0 {
+		return false
+	}
+	for _, b := range h.Blocks {
+		if ifi, ok := b.Instrs[len(b.Instrs)-1].(*ssa.If); ok {
+			cond := ifi.Cond
+			for {
+				if u, isU := cond.(*ssa.UnOp); isU && u.Op == token.NOT {
+					cond = u.X
+					continue
+				}
+				break
+			}
+			if call, isCall := cond.(*ssa.Call); isCall {
+				n, pk := calleeNamePkg(call)
+				if (n == "CanSend" || n == "CanPush" || n == "CanAccept" || n == "CanDeliver") && (strings.HasSuffix(pk, "/messaging") || strings.HasSuffix(pk, "/queueing")) && isStallGuard(ifi) {
+					return true
+				}
+			}
+		}
+	}
+	return false
+}
+
+func condCall(ifi *ssa.If) ssa.Value {
+	cond := ifi.Cond
+	for {
+		if u, isU := cond.(*ssa.UnOp); isU && u.Op == token.NOT {
+			cond = u.X
+			continue
+		}
+		break
+	}
+	return cond
 }
